@@ -48,13 +48,15 @@ Names   == SubSeq(<<"a", "b", "c">>, 1, NNames)   \* canonical introduction orde
 NameSet == { Names[i] : i \in 1..Len(Names) }
 ND      == NameSet \cup {"-"}
 
-GoOps == {"pvar", "pconst", "ptype", "func", "method", "define", "lvar", "lconst", "ltype", "use",
+TwoOps == {"pvar2", "pconst2", "define2", "lvar2", "lconst2"}   \* declarations of TWO names: `var n, k = 1, 2` ...
+GoOps == TwoOps \cup
+         {"pvar", "pconst", "ptype", "func", "method", "define", "lvar", "lconst", "ltype", "use",
           "muse", "block", "if", "for", "switch", "range", "funclit", "close"}
 XOps  == {"pover", "xmain", "errwrap", "echo", "interp", "forin", "lambdab", "lambda", "compr"}
 
 Openers  == {"func", "method", "xmain", "block", "if", "for", "switch", "range", "forin", "funclit", "lambdab"}
 FuncLike == {"func", "method", "xmain", "funclit", "lambdab", "lambda"}   \* header scope = body scope
-PkgOps   == {"pvar", "pconst", "ptype", "pover", "func", "method", "xmain"}
+PkgOps   == {"pvar", "pconst", "ptype", "pover", "func", "method", "xmain", "pvar2", "pconst2"}
 
 It(op, n, u, p, r, q, k, v) ==
   [op |-> op, n |-> n, u |-> u, p |-> p, r |-> r, q |-> q, k |-> k, v |-> v, par |-> 0]
@@ -71,6 +73,9 @@ Roles(op) ==
     [] op = "pconst"  -> << <<"n","n","pkg">> >>
     [] op = "ptype"   -> << <<"n","n","pkg">> >>
     [] op = "pover"   -> << <<"n","n","pkg">> >>
+    [] op \in {"pvar2", "pconst2"} -> << <<"n","n","pkg">>, <<"k","k","pkg">> >>
+    [] op \in {"define2", "lvar2"} -> << <<"n","n","loc">>, <<"k","k","loc">>, <<"au","n","self">>, <<"auk","k","self">> >>
+    [] op = "lconst2" -> << <<"n","n","loc">>, <<"k","k","loc">> >>
     [] op = "func"    -> << <<"n","n","pkg">>, <<"p","p","hdr">>, <<"r","r","hdr">> >>
     [] op = "method"  -> << <<"q","q","hdr">>, <<"n","n","meth">>, <<"p","p","hdr">>, <<"r","r","hdr">> >>
     [] op = "define"  -> << <<"n","n","loc">>, <<"u","u","body">>, <<"au","n","self">> >>
@@ -216,11 +221,12 @@ WellFormed(it, pk, mn, bn, seen, xm) ==
       /\ (Canon => CanonOK(seen, NamesOf(it)))
       \* shapes that would not be programs
       /\ (it.op = "range" => (it.k # "-" \/ it.v # "-"))
+      /\ (it.op \in TwoOps => it.n # it.k)
       /\ (stack = << >> => ~xm)                                    \* the shadow main comes last
       \* the shadow main begins at the first top-level STATEMENT: a leading var/const/type would
       \* still be a package-level declaration (parser.go: parseFile / ShadowEntry)
-      /\ (TopPar # 0 /\ it.op \in {"lvar", "lconst", "ltype"} /\ items[TopPar].op = "xmain"
-            => \E j \in 1..Len(items) : items[j].par = TopPar /\ items[j].op \notin {"lvar", "lconst", "ltype"})
+      /\ (TopPar # 0 /\ it.op \in {"lvar", "lconst", "ltype", "lvar2", "lconst2"} /\ items[TopPar].op = "xmain"
+            => \E j \in 1..Len(items) : items[j].par = TopPar /\ items[j].op \notin {"lvar", "lconst", "ltype", "lvar2", "lconst2"})
 
 \* candidate items at the current point
 PkgCands == { it \in
@@ -228,11 +234,13 @@ PkgCands == { it \in
   \cup { It(op, n, "-", "-", "-", "-", "-", "-") : op \in {"pconst", "ptype", "pover"}, n \in NameSet }
   \cup { It("func", n, "-", p, r, "-", "-", "-") : n \in NameSet, p \in ND, r \in ND }
   \cup { It("method", n, "-", p, r, q, "-", "-") : n \in NameSet, p \in ND, r \in ND, q \in ND }
+  \cup { It(op, n, "-", "-", "-", "-", k, "-") : op \in {"pvar2", "pconst2"}, n \in NameSet, k \in NameSet }
   \cup { It("xmain", "-", "-", "-", "-", "-", "-", "-") } : it.op \in Ops }
 BlockCands == { it \in
        { It(op, n, u, "-", "-", "-", "-", "-") : op \in {"define", "lvar", "errwrap"}, n \in NameSet, u \in ND }
   \cup { It(op, n, "-", "-", "-", "-", "-", "-") : op \in {"lconst", "ltype"}, n \in NameSet }
   \cup { It(op, "-", u, "-", "-", "-", "-", "-") : op \in {"use", "echo", "interp", "muse"}, u \in NameSet }
+  \cup { It(op, n, "-", "-", "-", "-", k, "-") : op \in {"define2", "lvar2", "lconst2"}, n \in NameSet, k \in NameSet }
   \cup { It("block", "-", "-", "-", "-", "-", "-", "-") }
   \cup { It("if", n, u, "-", "-", "-", "-", "-") : n \in ND, u \in ND }
   \cup { It("for", n, "-", "-", "-", "-", "-", "-") : n \in NameSet }
@@ -282,7 +290,7 @@ InitOK(T, x) ==
   LET o == occs[x] t == T[x] IN
   (items[o.i].op = "pvar" /\ o.role = "u") =>
      /\ t # 0 /\ occs[t].i # o.i
-     /\ items[occs[t].i].op \in {"pconst", "ptype", "pvar"}
+     /\ items[occs[t].i].op \in {"pconst", "ptype", "pvar", "pconst2", "pvar2"}
      /\ (items[occs[t].i].op = "pvar" => items[occs[t].i].u = "-")
 
 CompleteT(T) == Closed /\ \A x \in UseIdx : T[x] # 0 /\ InitOK(T, x)
